@@ -136,7 +136,10 @@ func (p histProp) RunUnit(raw core.Unit, tier string, seed int64) core.UnitResul
 				min, mv = h, v
 			}
 			b, _ := json.Marshal(min)
-			last := min.Steps[mv.Step]
+			last := Step{Op: "none"}
+			if mv.Step >= 0 {
+				last = min.Steps[mv.Step]
+			}
 			sig := fmt.Sprintf("%s|%s|%s|%s", p.id, mv.Class, last.Op, faultKindOf(last))
 			res.Violations = append(res.Violations, core.Violation{Property: p.id, Class: mv.Class, Signature: sig,
 				Detail: fmt.Sprintf("document %s, minimised history (%d of %d steps):\n  %s\n%s", h.Doc, len(min.Steps), len(h.Steps), strings.Join(stepStrings(min), "\n  "), mv.Detail), Replay: b})
